@@ -139,6 +139,10 @@ pub enum Link {
     TailCall,
     /// `make t get f()` then `return t`
     MakeCall,
+    /// `typeof(f())`: a built-in that accepts any value
+    TypeofArg,
+    /// `shout(f())`
+    ShoutArg,
     /// the call sits inside k nested bare blocks
     Blocks(u16),
     /// ... inside k nested `if to say`
@@ -166,6 +170,8 @@ impl Link {
             Link::StmtCall => "expression-statement",
             Link::TailCall => "bare-return-call",
             Link::MakeCall => "declaration-initialiser",
+            Link::TypeofArg => "typeof-argument",
+            Link::ShoutArg => "shout-argument",
             Link::Blocks(_) => "nested-blocks",
             Link::Ifs(_) => "nested-ifs",
             Link::Loops(_) => "nested-loops",
@@ -202,6 +208,8 @@ impl Link {
             "expression-statement" => Link::StmtCall,
             "bare-return-call" => Link::TailCall,
             "declaration-initialiser" => Link::MakeCall,
+            "typeof-argument" => Link::TypeofArg,
+            "shout-argument" => Link::ShoutArg,
             "nested-blocks" => Link::Blocks(k),
             "nested-ifs" => Link::Ifs(k),
             "nested-loops" => Link::Loops(k),
@@ -242,6 +250,8 @@ impl Link {
             Link::StmtCall => out.push_str(&format!("{call}\nreturn 0\n")),
             Link::TailCall => out.push_str(&format!("return {call}\n")),
             Link::MakeCall => out.push_str(&format!("make t get {call}\nreturn t\n")),
+            Link::TypeofArg => out.push_str(&format!("make kind get typeof({call})\nreturn kind.len()\n")),
+            Link::ShoutArg => out.push_str(&format!("shout({call})\nreturn 0\n")),
             Link::Blocks(k) => nest(out, k, "start\n", "end\n"),
             Link::Ifs(k) => nest(out, k, "if to say (true) start\n", "end\n"),
             Link::Loops(k) => nest(out, k, "jasi (true) start\n", "comot\nend\n"),
@@ -800,6 +810,14 @@ fn failure_of(shape: &Shape, depth: u64, build: Build, bisected: Option<u64>, v:
             ),
             input: input_json(shape, depth, build, bisected),
         }),
+        // a recursion without a base case cannot end normally: the depth error was lost
+        Verdict::Completed if matches!(shape, Shape::Cycle { bounded: false, .. }) => Some(Failure {
+            sig: format!("unbounded-recursion-ended-normally|{construct}|{b}"),
+            what: format!(
+                "{b} naija on {construct}: the recursion has no base case, yet the run ended with exit status 0 and no diagnostic (the 'Stack overflow' error was swallowed)"
+            ),
+            input: input_json(shape, depth, build, bisected),
+        }),
         Verdict::BadExit { stage, what } => Some(Failure {
             sig: format!("bad-exit|{}|{construct}|{b}", stage.name()),
             what: format!("{b} naija on {construct}, {depth_txt}: {what}"),
@@ -834,6 +852,8 @@ fn link_strategy() -> impl Strategy<Value = Link> {
         1 => Just(Link::StmtCall),
         2 => Just(Link::TailCall),
         1 => Just(Link::MakeCall),
+        2 => Just(Link::TypeofArg),
+        1 => Just(Link::ShoutArg),
         3 => k.clone().prop_map(Link::Blocks),
         2 => k.clone().prop_map(Link::Ifs),
         2 => k.prop_map(Link::Loops),
@@ -918,7 +938,7 @@ pub fn work_list(seed: u64, tier: Tier) -> Vec<Unit> {
         }
     }
     // (A) cycles from the grammar; the single-link cycles first so that every link is met
-    let singles: [Link; 19] = [
+    let singles: [Link; 21] = [
         Link::OperandRight,
         Link::OperandLeft,
         Link::UserArg,
@@ -935,6 +955,8 @@ pub fn work_list(seed: u64, tier: Tier) -> Vec<Unit> {
         Link::StmtCall,
         Link::TailCall,
         Link::MakeCall,
+        Link::TypeofArg,
+        Link::ShoutArg,
         Link::Blocks(600),
         Link::Ifs(600),
         Link::Loops(600),
@@ -946,6 +968,11 @@ pub fn work_list(seed: u64, tier: Tier) -> Vec<Unit> {
         vec![Link::MakeCall],
         vec![Link::StmtCall],
         vec![Link::TailCall, Link::StmtCall, Link::MakeCall],
+        // the recursive call as the argument of a built-in that accepts any value
+        vec![Link::TypeofArg],
+        vec![Link::ShoutArg],
+        vec![Link::BuiltinArg],
+        vec![Link::TypeofArg, Link::TailCall],
     ] {
         shapes.push(Shape::Cycle { links, bounded: false });
     }
@@ -1166,6 +1193,11 @@ fn run_unit(ctx: &mut ShardCtx, unit: &Unit) {
         let v = evaluate(shape, depth, build);
         count(ctx, shape, depth, build, &v);
         match &v {
+            Verdict::Completed if matches!(shape, Shape::Cycle { bounded: false, .. }) => {
+                if let Some(f) = failure_of(shape, depth, build, None, &v) {
+                    ctx.handle("search", Outcome::Fail(f));
+                }
+            }
             Verdict::Completed | Verdict::Diagnosed(_) => last_ok = depth,
             Verdict::ArenaExhausted => {
                 ctx.discard("arena exhausted (inconclusive)");
@@ -1307,6 +1339,12 @@ impl Check for C08 {
         let bisected = input["bisected_min_depth"].as_u64();
         let v = evaluate(&shape, depth, build);
         match &v {
+            Verdict::Completed if matches!(shape, Shape::Cycle { bounded: false, .. }) => {
+                match failure_of(&shape, depth, build, bisected, &v) {
+                    Some(f) => Outcome::Fail(f),
+                    None => Outcome::Pass,
+                }
+            }
             Verdict::Completed | Verdict::Diagnosed(_) => Outcome::Pass,
             Verdict::Crash { .. } | Verdict::BadExit { .. } => match failure_of(&shape, depth, build, bisected, &v) {
                 Some(f) => Outcome::Fail(f),
